@@ -224,6 +224,19 @@ Definition dec_quoted (s : bytes) : dres bytes :=
   | DOk _ r => match quoted_body r with Some (a, rest) => DOk a rest | None => DErr end
   end.
 
+(* first n / all but the first n elements, for a binary count (no unary number of the size of
+   an announced literal is ever built) *)
+Fixpoint take_n (l : bytes) (n : N) : bytes :=
+  match l with
+  | [] => []
+  | x :: r => if n =? 0 then [] else x :: take_n r (n - 1)
+  end.
+Fixpoint drop_n (l : bytes) (n : N) : bytes :=
+  match l with
+  | [] => []
+  | x :: r => if n =? 0 then l else drop_n r (n - 1)
+  end.
+
 (* Decoder.LiteralReader + Literal (no CheckBufferedLiteralFunc): server side accepts "+".
    A stream that ends inside the payload yields the shorter string (io.Copy sees EOF). *)
 Definition dec_literal (server_side : bool) (s : bytes) : dres bytes :=
@@ -237,7 +250,7 @@ Definition dec_literal (server_side : bool) (s : bytes) : dres bytes :=
           match dec_special (ch "}") r2 with
           | DOk _ r3 =>
               match dec_crlf r3 with
-              | DOk _ r4 => DOk (firstn (N.to_nat n) r4) (skipn (N.to_nat n) r4)
+              | DOk _ r4 => DOk (take_n r4 n) (drop_n r4 n)
               | _ => DErr
               end
           | _ => DErr
